@@ -18,7 +18,7 @@ import harness  # noqa: E402
 from engine import State  # noqa: E402
 from harness import MirCheck, Src, run_async  # noqa: E402
 from summaries import OPTION, RESULT, mk_time  # noqa: E402
-from values import UNIT, VEnum, VOpaque, VSeq, VStr, VStruct, bv, flatten, vmap  # noqa: E402
+from values import UNIT, VArr, VEnum, VOpaque, VSeq, VStr, VStruct, bv, flatten, vmap  # noqa: E402
 
 NC = 2  # contacted-nodes list capacity in the symbolic pending entries
 
@@ -433,10 +433,155 @@ def build_rr_reply(ck, src, obs=None):
     return R
 
 
+ENGINE_CAP = 10_000
+
+
+def build_engine_query(ck, src, obs=None):
+    """DhtCoreEngine::query_node_for_key (the core engine's own pending table, an LruCache capped at 10 000): refused at the cap before anything is registered or sent; for every
+    outcome of the send and of the wait nothing of the request remains; other pending queries untouched.  DhtCoreEngine::handle_response: completes exactly the query with that id, once."""
+    eng = ck.engine() if obs is None else ck.meta_engine()
+    oth, uuid = src.bv("other", 64), src.bv("uuid", 64)
+    probes = {"other": oth, "mid": uuid}
+    tmpl = VStruct([bv(0, 64)], "OneshotSender")
+    reqs0 = src.map("E.pending", 64, tmpl, probes)
+    n0 = src.bv("E.pending.count", 64)
+    hyps = list(src.hyps) + [uuid != oth, z3.Not(z3.Select(reqs0.present, uuid)), z3.ULE(n0, bv(20_000, 64)), z3.Implies(z3.Select(reqs0.present, oth), z3.UGE(n0, 1))]
+    if obs is None:
+        st = State()
+        from values import VMap
+
+        reqs0 = VMap(reqs0.ksort, reqs0.present, reqs0.val, n0, None, reqs0.enum)
+        rreqs = eng.alloc(st, reqs0)
+        send_ok, wait_kind = install_env(eng, src, uuid)
+        hyps += src.hyps[-1:]
+        ser_ok = src.bool("env.serialize_ok")
+
+        def h_ser(e, s_, a, d, c, m):
+            from values import VBlob
+
+            return VEnum(RESULT, z3.If(ser_ok, bv(0, 8), bv(1, 8)), {0: (VBlob(e.fresh_bv("req.id", 64), e.fresh_bv("req.len", 64)),), 1: (VOpaque("postcard::Error"),)})
+
+        def h_dyn_send(e, s_, a, d, c, m):
+            eng.sent_pcs.append(s_.pc)
+            return VStruct([VEnum(RESULT, z3.If(send_ok, bv(0, 8), bv(1, 8)), {0: (UNIT,), 1: (VOpaque("P2PError"),)})], "ReadyFuture")
+
+        def h_hex(e, s_, a, d, c, m):
+            return VStr(e.fresh_bv("peer.hex", 64))
+
+        eng.summaries.insert(0, (re.compile(r"^(postcard::)?to_stdvec::<.*DhtRequestWrapper>$"), h_ser, "ENVIRONMENT postcard::to_stdvec(&request) -> arbitrary outcome"))
+        eng.summaries.insert(0, (re.compile(r"^<dyn (network::)?NetworkSender as (network::)?NetworkSender>::send_message(::<.*>)?$"), h_dyn_send,
+                                 "ENVIRONMENT <dyn NetworkSender>::send_message -> arbitrary outcome, no effect on the pending table"))
+        eng.summaries.insert(0, (re.compile(r"^<(dht::core_engine::|core_engine::)?NodeId as ToString>::to_string$"), h_hex, "NodeId::to_string -> some string"))
+        # the reply (when one arrives) is an arbitrary DhtResponse of one of three shapes: a RetrieveReply, an Error, or something else (LeaveAck)
+        rinfo = eng.enum_info("DhtResponse")
+        rk = src.bv("env.reply_kind", 8)
+        import c05
+        from values import VBlob
+
+        ri, ei, li = rinfo.index("RetrieveReply"), rinfo.index("Error"), rinfo.index("LeaveAck")
+        ef = c05.variant_fields(eng, "DhtResponse", "Error")
+        evals = {"code": VOpaque("ErrorCode"), "message": VStr(src.bv("env.reply_msg", 64)), "retry_after": VEnum(OPTION, bv(0, 8), {0: ()})}
+        reply = VEnum(rinfo, z3.If(rk == 0, bv(ri, 8), z3.If(rk == 1, bv(ei, 8), bv(li, 8))),
+                      {ri: (VEnum(OPTION, z3.If(src.bool("env.reply_some"), bv(1, 8), bv(0, 8)), {0: (), 1: (VBlob(src.bv("env.reply_val", 64), src.bv("env.reply_len", 64)),)}),),
+                       ei: tuple(evals[f] for f in ef), li: (src.bool("env.reply_confirmed"),)})
+
+        def h_timeout2(e, s_, a, d, c, m):
+            inner = VEnum(RESULT, z3.If(wait_kind == 0, bv(0, 8), bv(1, 8)), {0: (reply,), 1: (VOpaque("RecvError"),)})
+            return VStruct([VEnum(RESULT, z3.If(wait_kind == 2, bv(1, 8), bv(0, 8)), {0: (inner,), 1: (VOpaque("Elapsed"),)})], "ReadyFuture")
+
+        eng.summaries.insert(0, (re.compile(r"^tokio::time::timeout::<.*>$"), h_timeout2, "ENVIRONMENT tokio::time::timeout(rx) -> an arbitrary DhtResponse / closed channel / elapsed"))
+        E = mk_fill(eng, "DhtCoreEngine", {"pending_requests": rreqs})
+        node = VOpaque("NodeInfo")
+        import c02
+
+        ninfo = c02.node_info(eng, VArr([bv(1, 8)] * 32), 1)
+        st.clock = src.instant("prev")
+        hyps += src.hyps[-2:]
+        st2, out = run_async(eng, ck.fn_in("DhtCoreEngine", "query_node_for_key"),
+                             [eng.alloc(st, E), VOpaque("Arc<dyn NetworkSender>"), eng.alloc(st, ninfo), eng.alloc(st, VStruct([VArr([bv(0, 8)] * 32)], "DhtKey"))], st)
+        pc = st2.pc
+        reqs1 = eng.load(st2, rreqs)
+        n1 = reqs1.count
+        retok = out.idx == bv(0, 8)
+        sent = z3.Or(*eng.sent_pcs) if eng.sent_pcs else z3.BoolVal(False)
+        # outcomes a native run can force: a send error (mock transport) or a timeout
+        prefs = [ser_ok, z3.Or(z3.Not(send_ok), wait_kind == 2)]
+    else:
+        send_ok, wait_kind, ser_ok = src.bool("env.send_ok"), src.bv("env.wait_kind", 8), src.bool("env.serialize_ok")
+        pc = z3.BoolVal(True)
+        reqs1 = harness.obs_map(obs, "post.pending", 64, tmpl, probes)
+        n1 = bv(int(obs["post.count"]), 64)
+        retok = z3.BoolVal(bool(obs["ok"]))
+        sent = z3.BoolVal(bool(obs["sent"]))
+        prefs = []
+
+    def same(k):
+        a = vmap(reqs0.val, lambda x: z3.Select(x, k))
+        b = vmap(reqs1.val, lambda x: z3.Select(x, k))
+        p0, p1 = z3.Select(reqs0.present, k), z3.Select(reqs1.present, k)
+        return z3.And(p1 == p0, z3.Implies(p0, z3.And(*[x == y for x, y in zip(flatten(a), flatten(b))])))
+
+    at_cap = z3.UGE(n0, bv(ENGINE_CAP, 64))
+    G = {}
+    G["at_the_cap_the_query_is_refused_before_anything_is_registered_or_sent"] = z3.Implies(at_cap, z3.And(z3.Not(retok), z3.Not(sent), n1 == n0))
+    G["below_the_cap_a_serialisable_query_is_sent"] = z3.Implies(z3.And(z3.Not(at_cap), ser_ok), sent)
+    # the reply path removes the entry in handle_response; every other outcome must remove it here
+    G["nothing_of_the_query_remains_in_the_pending_table"] = z3.Implies(z3.Not(z3.And(z3.Not(at_cap), ser_ok, send_ok, wait_kind != 2)), z3.Not(z3.Select(reqs1.present, uuid)))
+    G["a_timed_out_query_is_removed"] = z3.Implies(z3.And(z3.Not(at_cap), ser_ok, send_ok, wait_kind == 2), z3.And(z3.Not(z3.Select(reqs1.present, uuid)), n1 == n0))
+    G["other_pending_queries_are_untouched"] = same(oth)
+    R = {"eng": eng, "hyps": hyps, "goals": {g: z3.Implies(pc, f) for g, f in G.items()}, "prefer": prefs}
+    R["reach"] = {"reach_cap": z3.And(pc, at_cap), "reach_send_error": z3.And(pc, z3.Not(at_cap), ser_ok, z3.Not(send_ok)), "reach_timeout": z3.And(pc, z3.Not(at_cap), ser_ok, send_ok, wait_kind == 2)}
+    return R
+
+
+def build_engine_response(ck, src, obs=None):
+    """DhtCoreEngine::handle_response: one response against an ARBITRARY pending-query table completes exactly the query carrying its id, once, and removes it; nothing else changes"""
+    eng = ck.engine() if obs is None else ck.meta_engine()
+    mid, oth = src.bv("mid", 64), src.bv("other", 64)
+    probes = {"mid": mid, "other": oth}
+    tmpl = VStruct([bv(0, 64)], "OneshotSender")
+    reqs0 = src.map("E.pending", 64, tmpl, probes)
+    n0 = src.bv("E.pending.count", 64)
+    chan = lambda m, k: vmap(m.val, lambda a: z3.Select(a, k)).f[0]  # noqa: E731
+    p_mid0, p_oth0 = z3.Select(reqs0.present, mid), z3.Select(reqs0.present, oth)
+    hyps = list(src.hyps) + [mid != oth, z3.Implies(z3.And(p_mid0, p_oth0), chan(reqs0, mid) != chan(reqs0, oth)), z3.ULE(n0, bv(20_000, 64)),
+                             z3.Implies(z3.Or(p_mid0, p_oth0), z3.UGE(n0, 1)), z3.Implies(z3.And(p_mid0, p_oth0), z3.UGE(n0, 2))]
+    if obs is None:
+        st = State()
+        from values import VMap
+
+        reqs0 = VMap(reqs0.ksort, reqs0.present, reqs0.val, n0, None, reqs0.enum)
+        rreqs = eng.alloc(st, reqs0)
+        eng.deliveries = []
+        E = mk_fill(eng, "DhtCoreEngine", {"pending_requests": rreqs})
+        wrapper = mk_fill(eng, "DhtResponseWrapper", {"id": VStr(mid), "response": VOpaque("DhtResponse")})
+        st2, out = run_async(eng, ck.fn_in("DhtCoreEngine", "handle_response"), [eng.alloc(st, E), wrapper], st)
+        pc = st2.pc
+        reqs1 = eng.load(st2, rreqs)
+        n1 = reqs1.count
+        dl = list(eng.deliveries)
+        to_mid = z3.Or(*[z3.And(d["pc"], d["chan"] == chan(reqs0, mid)) for d in dl]) if dl else z3.BoolVal(False)
+        elsewhere = z3.Or(*[z3.And(d["pc"], d["chan"] != chan(reqs0, mid)) for d in dl]) if dl else z3.BoolVal(False)
+        twice = z3.Or(*[z3.And(dl[i]["pc"], dl[j]["pc"]) for i in range(len(dl)) for j in range(i)]) if len(dl) > 1 else z3.BoolVal(False)
+    else:
+        pc = z3.BoolVal(True)
+        reqs1 = harness.obs_map(obs, "post.pending", 64, tmpl, probes)
+        n1 = bv(int(obs["post.count"]), 64)
+        to_mid = z3.BoolVal(bool(obs["delivered_mid"]))
+        elsewhere = z3.BoolVal(bool(obs["delivered_other"]))
+        twice = z3.BoolVal(False)
+    p_oth1 = z3.Select(reqs1.present, oth)
+    G = {}
+    G["a_response_completes_exactly_the_query_with_its_identifier"] = z3.And(to_mid == p_mid0, z3.Not(elsewhere), z3.Not(twice))
+    G["a_completed_query_leaves_the_table"] = z3.And(z3.Not(z3.Select(reqs1.present, mid)), n1 == z3.If(p_mid0, n0 - 1, n0))
+    G["other_pending_queries_are_untouched"] = z3.And(p_oth1 == p_oth0, z3.Implies(p_oth0, chan(reqs1, oth) == chan(reqs0, oth)))
+    return {"eng": eng, "hyps": hyps, "goals": {g: z3.Implies(pc, f) for g, f in G.items()}, "reach": {"reach_delivered": z3.And(pc, to_mid), "reach_unknown_id": z3.And(pc, z3.Not(p_mid0))}}
+
+
 def register(ck, tag, driver, params, builder):
     src = Src()
     R = builder(src, None)
-    rp = harness.make_replayer(ck, "dht_network_manager" if driver not in ("rr_send", "rr_reply") else "transport_handle", driver, lambda s, obs: builder(s, obs), params)
+    rp = harness.make_replayer(ck, "core_engine" if driver in ("engine_query", "engine_response") else ("dht_network_manager" if driver not in ("rr_send", "rr_reply") else "transport_handle"), driver, lambda s, obs: builder(s, obs), params)
     ck.register_src(driver, params, src)
     for g, f in R["goals"].items():
         ck.prove(f"{tag}/{g}", R["eng"], R["hyps"], f, on_sat=rp, meta={"goal": g, "prefer": R.get("prefer") or []})
@@ -455,6 +600,10 @@ def builder_for(ck, driver, params):
         return lambda s, obs: build_rr(ck, s, obs)
     if driver == "rr_reply":
         return lambda s, obs: build_rr_reply(ck, s, obs)
+    if driver == "engine_query":
+        return lambda s, obs: build_engine_query(ck, s, obs)
+    if driver == "engine_response":
+        return lambda s, obs: build_engine_response(ck, s, obs)
     raise harness.SymError("unknown driver " + driver)
 
 
@@ -464,6 +613,8 @@ def run(tier):
     ck.guarded("dht_send", lambda: register(ck, "dht_send", "dht_send", {}, builder_for(ck, "dht_send", {})))
     ck.guarded("rr_send", lambda: register(ck, "rr_send", "rr_send", {}, builder_for(ck, "rr_send", {})))
     ck.guarded("rr_reply", lambda: register(ck, "rr_reply", "rr_reply", {}, builder_for(ck, "rr_reply", {})))
+    ck.guarded("engine_query", lambda: register(ck, "engine_query", "engine_query", {}, builder_for(ck, "engine_query", {})))
+    ck.guarded("engine_response", lambda: register(ck, "engine_response", "engine_response", {}, builder_for(ck, "engine_response", {})))
     ck.run_queries()
     ck.out.bounds = ["DhtNetworkManager::handle_dht_response: one reply (arbitrary message id, claimed source, transport sender, result present or not) against an ARBITRARY pending table "
                      "(HashMap<String, DhtOperationContext> as SMT arrays over abstract string identities; contacted-node lists of length <= 2; channels as identities), observed at the "
